@@ -43,6 +43,12 @@ def main(argv=None):
     seed = int(os.environ.get('VERIF_SEED', '0') or 0)
     only = set(args.only.split(',')) if args.only else None
     t0 = time.time()
+    import signal
+
+    def _timeout(signum, frame):
+        raise AnalysisError(prop, 'engine', 'analysis time limit exceeded (term blow-up); fail closed')
+    signal.signal(signal.SIGALRM, _timeout)
+    signal.alarm(int(os.environ.get('VERIF_TIME_LIMIT', '900' if args.tier == 'thorough' else '300')))
     try:
         mod, model, ctx, summary = run_property(prop, args.tier, only)
         # positive controls: zero-expected rules must fire on a tiny example
